@@ -168,6 +168,59 @@ func (s *storageAnalysis) atomOfHit(e ast.Expr, fn ast.Node) (string, bool) {
 		if t.Op == token.EQL {
 			return s.atomOfKeyCompare(t)
 		}
+		// i >= 0 / i > -1 / i != -1 with i the index found by a search for the key
+		if id, ok := ast.Unparen(t.X).(*ast.Ident); ok {
+			if v, isC := constInt(s.info.Types[t.Y]); isC && ((t.Op == token.GEQ && v == 0) || (t.Op == token.GTR && v == -1) || (t.Op == token.NEQ && v == -1)) {
+				if as, i := definingAssign(s.info, s.method, s.info.ObjectOf(id)); as != nil && len(as.Lhs) == len(as.Rhs) {
+					if call, ok := ast.Unparen(as.Rhs[i]).(*ast.CallExpr); ok {
+						return s.atomOfIndexSearch(call, 0)
+					}
+				}
+			}
+		}
+	}
+	return "", false
+}
+
+// atomOfIndexSearch: slices.IndexFunc(X, func(e) bool { return e.key == key }) or a method of the receiver that
+// returns such a search over the receiver.
+func (s *storageAnalysis) atomOfIndexSearch(call *ast.CallExpr, depth int) (string, bool) {
+	cal := Callee(s.info, call)
+	if cal == nil || cal.Pkg() == nil {
+		return "", false
+	}
+	if cal.Pkg().Path() == "slices" && (cal.Name() == "IndexFunc" || cal.Name() == "ContainsFunc") && len(call.Args) == 2 {
+		lit, ok := ast.Unparen(call.Args[1]).(*ast.FuncLit)
+		if !ok || len(lit.Body.List) != 1 {
+			return "", false
+		}
+		ret, ok := lit.Body.List[0].(*ast.ReturnStmt)
+		if !ok || len(ret.Results) != 1 {
+			return "", false
+		}
+		if be, ok := ast.Unparen(ret.Results[0]).(*ast.BinaryExpr); !ok || be.Op != token.EQL {
+			return "", false
+		}
+		return s.atomOfContainer(call.Args[0])
+	}
+	// x.indexOf(key) on the receiver itself
+	if depth < 2 && cal.Pkg() == s.pkg.Types {
+		if sel, ok := ast.Unparen(call.Fun).(*ast.SelectorExpr); ok {
+			if id, ok := ast.Unparen(sel.X).(*ast.Ident); ok && s.info.ObjectOf(id) == s.recv {
+				if fd := findFuncDecl(s.pkg, cal); fd != nil && fd.Body != nil && len(fd.Body.List) == 1 && fd.Recv != nil && len(fd.Recv.List[0].Names) == 1 {
+					if ret, ok := fd.Body.List[0].(*ast.ReturnStmt); ok && len(ret.Results) == 1 {
+						if inner, ok := ast.Unparen(ret.Results[0]).(*ast.CallExpr); ok {
+							// evaluate in the helper with its own receiver standing for ours
+							saveRecv, saveMethod := s.recv, s.method
+							s.recv, s.method = s.info.Defs[fd.Recv.List[0].Names[0]], fd
+							a, ok := s.atomOfIndexSearch(inner, depth+1)
+							s.recv, s.method = saveRecv, saveMethod
+							return a, ok
+						}
+					}
+				}
+			}
+		}
 	}
 	return "", false
 }
